@@ -49,11 +49,19 @@ char *strcasestr(const char *h, const char *n){
 }
 /* allocation of a small, symbolically sized block as a choice among CONCRETE sizes: cbmc's memory model exhausts memory on
    symbolically sized objects that are then accessed byte by byte (probed), while exact object sizes are kept this way */
-#define VERIF_SZ(k) if (n == k) return malloc(k);
+#define VERIF_SZ(k) if (n == k) return __CPROVER_allocate(k, 0);
 static void *verif_malloc_small(size_t n){
   VERIF_SZ(1) VERIF_SZ(2) VERIF_SZ(3) VERIF_SZ(4) VERIF_SZ(5) VERIF_SZ(6) VERIF_SZ(7) VERIF_SZ(8) VERIF_SZ(9) VERIF_SZ(10) VERIF_SZ(11) VERIF_SZ(12)
   VERIF_SZ(13) VERIF_SZ(14) VERIF_SZ(15) VERIF_SZ(16) VERIF_SZ(17) VERIF_SZ(18) VERIF_SZ(19) VERIF_SZ(20) VERIF_SZ(21) VERIF_SZ(22) VERIF_SZ(23) VERIF_SZ(24)
-  return malloc(n); }
+  VERIF_SZ(25) VERIF_SZ(26) VERIF_SZ(27) VERIF_SZ(28) VERIF_SZ(29) VERIF_SZ(30) VERIF_SZ(31) VERIF_SZ(32)
+  VERIF_SZ(40) VERIF_SZ(48) VERIF_SZ(56) VERIF_SZ(64) VERIF_SZ(72) VERIF_SZ(80) VERIF_SZ(88) VERIF_SZ(96) VERIF_SZ(104) VERIF_SZ(112)
+  return __CPROVER_allocate(n, 0); }
+#ifdef VERIF_MALLOC_CHOICE
+/* content-level runs whose REAL code allocates symbolically sized blocks (malloc(strlen(x)+1)): the same choice among concrete
+   sizes for every malloc of the run (never NULL: allocation failure is outside the properties' domain; leak tracking is done in the
+   size-level runs, not here) */
+void *malloc(size_t n){ return verif_malloc_small(n); }
+#endif
 #ifdef VERIF_STRDUP_EXACT_INPUT
 /* for harnesses whose input string fills its buffer exactly (no NUL before the last byte): the copy gets the input's
    remaining object size, which is then EXACTLY strlen+1 and, being concrete, keeps the run tractable */
